@@ -316,6 +316,10 @@ class Report:
                  "searched": self.evaluations}, indent=1, default=str))
             print(f"VIOLATION property={self.prop} replay={path} no-failing-input-found")
             rc = 1
+        if rc == 0:
+            stale = REPLAYS / f"{self.prop}-{seed()}.json"
+            if stale.exists():
+                stale.unlink()
         ev = {
             "property_id": self.prop,
             "tier": self.tier,
